@@ -1,3 +1,250 @@
+/-
+Line-protocol driver of the C10 code model (`TxdbusModel.Obj.Dispatch`).
+
+One line in, one line out.  Strings travel as the hex of their code points (6 digits each, `-` is
+the empty string, `~` is Python `None`).  Lines:
+
+  reset
+      forget the exports and the history                                  -> ok
+  export <path> <nclasses> {<hasIfaces 0|1> <nifaces> {<name> <nmethods> {<name> <sigIn> <sigOut> <nret>}}
+                            <nattrs> {<attr> <funcId> <0 | 1 iface member> <wantsCaller 0|1>}}
+      `exports[path] = obj` (class chain in `__mro__` order)                -> ok
+  call <path> <iface|~> <member> <sig|~> <sender|~> <serial> <expectReply 0|1> <nargs>
+       <names> <outcome>
+      the next operation of the history                                   -> events
+  resolve <k> <names> <resolution>
+      the Deferred returned by operation k fires                          -> events
+
+  <names>      := <n> {<name> <0|1>}            `validateErrorName(name)` returns, for the names that can occur
+  <enc>        := ok | E <cls> <errName|~> <text>        does MethodReturnMessage(...) raise
+  <outcome>    := V1 <enc> | VS <n> <encWrapped> <encFlat> | R <cls> <errName|~> <text> | D
+  <resolution> := V1 <enc> | VS <n> <encWrapped> <encFlat> | F <cls> <errName|~> <text>
+
+Values are tokens: the arguments of a call are 0..nargs-1, a single return value is 100, the
+elements of a returned sequence are 0..n-1 and the sequence taken as one value is 1000.
+
+Events (joined by ` | `, `none` when there are none):
+  inv <funcId> <nargs> <caller: - (not passed) | ~ (None) | hex>
+  ret <replySerial> <dest|~> <sig|~> <empty | xml | managed | vals:<ids joined by ,>>
+  err <name> <replySerial> <dest|~> <text>
+-/
 import Driver.Common
-/-! Driver for property C10 (stub: the model for this property is not built yet). -/
-def main : IO Unit := Driver.run (fun (s : Unit) _ => (s, "unimplemented")) ()
+import TxdbusModel.Obj.Dispatch
+
+open Txdbus.Obj.Dispatch
+
+namespace Driver.C10
+
+abbrev P := StateT (List String) Option
+
+def tok : P String := fun ts =>
+  match ts with
+  | [] => none
+  | t :: rest => some (t, rest)
+
+def nat : P Nat := do
+  let t ← tok
+  match t.toNat? with
+  | some n => pure n
+  | none => failure
+
+def bool : P Bool := do
+  let n ← nat
+  pure (n != 0)
+
+def str : P Str := do
+  let t ← tok
+  match Driver.hexToChars? t with
+  | some cs => pure cs
+  | none => failure
+
+def optStr : P (Option Str) := do
+  let t ← tok
+  if t == "~" then pure none else
+  match Driver.hexToChars? t with
+  | some cs => pure (some cs)
+  | none => failure
+
+def rep {α : Type} (p : P α) : Nat → P (List α)
+  | 0 => pure []
+  | n + 1 => do
+    let a ← p
+    let r ← rep p n
+    pure (a :: r)
+
+def method : P (Str × Method) := do
+  let name ← str
+  let sigIn ← str
+  let sigOut ← str
+  let nret ← nat
+  pure (name, { name, sigIn, sigOut, nret })
+
+def iface : P Iface := do
+  let name ← str
+  let n ← nat
+  let ms ← rep method n
+  pure { name, methods := ms }
+
+def attr : P (Str × Func) := do
+  let a ← str
+  let id ← nat
+  let d ← nat
+  let deco ← if d == 0 then pure none else do
+    let i ← str
+    let m ← str
+    pure (some (i, m))
+  let w ← bool
+  pure (a, { id, deco, wantsCaller := w })
+
+def cls : P Class := do
+  let h ← bool
+  let n ← nat
+  let is ← rep iface n
+  let k ← nat
+  let as ← rep attr k
+  pure { ifaces := if h then some is else none, attrs := as }
+
+def exc : P Exc := do
+  let c ← str
+  let n ← optStr
+  let t ← str
+  pure { cls := c, errName := n, text := t }
+
+def enc : P (Option Exc) := do
+  let t ← tok
+  if t == "ok" then pure none else
+  if t == "E" then do
+    let e ← exc
+    pure (some e)
+  else failure
+
+def names : P (List (Str × Bool)) := do
+  let n ← nat
+  rep (do let s ← str; let b ← bool; pure (s, b)) n
+
+/-- The driver's value tokens. -/
+def singleTok : Nat := 100
+def seqTok : Nat := 1000
+
+structure Result where
+  ret : Ret Nat
+  encSingle : Option Exc := none
+  encWrapped : Option Exc := none
+  encFlat : Option Exc := none
+
+def value : String → P Result
+  | "V1" => do
+    let e ← enc
+    pure { ret := .single singleTok, encSingle := e }
+  | "VS" => do
+    let n ← nat
+    let w ← enc
+    let f ← enc
+    pure { ret := .seq (List.range n), encWrapped := w, encFlat := f }
+  | _ => failure
+
+def mkEnv (nm : List (Str × Bool)) (r : Option Result) : Env Nat :=
+  { encErr := fun _ body =>
+      match r with
+      | none => none
+      | some r =>
+        if body = [singleTok] then r.encSingle
+        else if body = [seqTok] then r.encWrapped
+        else r.encFlat
+    ofSeq := fun _ => seqTok
+    validErr := fun n => (dictGet nm n).getD false
+    textFix := fixRepaired }
+
+structure St where
+  ex : Exports := []
+  st : State := State.init
+
+def showOpt : Option Str → String
+  | none => "~"
+  | some s => Driver.charsToHex s
+
+def showBody : Body Nat → String
+  | .empty => "empty"
+  | .xml _ => "xml"
+  | .managed _ => "managed"
+  | .vals vs => "vals:" ++ ",".intercalate (vs.map toString)
+
+def showEvent : Event Nat → String
+  | .sent (.ret s d sg b) => s!"ret {s} {showOpt d} {showOpt sg} {showBody b}"
+  | .sent (.err n s d t) => s!"err {Driver.charsToHex n} {s} {showOpt d} {Driver.charsToHex t}"
+  | .invoked f args caller =>
+    let c := match caller with
+      | none => "-"
+      | some o => showOpt o
+    s!"inv {f} {args.length} {c}"
+
+def showEvents (evs : List (Nat × Event Nat)) : String :=
+  if evs.isEmpty then "none" else " | ".intercalate (evs.map fun e => showEvent e.2)
+
+def parseExport : P (Str × Obj) := do
+  let path ← str
+  let n ← nat
+  let cs ← rep cls n
+  pure (path, { classes := cs })
+
+def parseCall : P (Env Nat × Op Nat) := do
+  let path ← str
+  let ifc ← optStr
+  let member ← str
+  let sig ← optStr
+  let sender ← optStr
+  let serial ← nat
+  let er ← bool
+  let nargs ← nat
+  let nm ← names
+  let kind ← tok
+  let c : Call Nat := { path, iface := ifc, member, sig, sender, serial, expectReply := er,
+                        body := List.range nargs }
+  if kind == "D" then pure (mkEnv nm none, .call c fun _ => .deferred)
+  else if kind == "R" then do
+    let e ← exc
+    pure (mkEnv nm none, .call c fun _ => .raise e)
+  else do
+    let r ← value kind
+    pure (mkEnv nm (some r), .call c fun _ => .value r.ret)
+
+def parseResolve : P (Env Nat × Op Nat) := do
+  let k ← nat
+  let nm ← names
+  let kind ← tok
+  if kind == "F" then do
+    let e ← exc
+    pure (mkEnv nm none, .resolve k (.fail e))
+  else do
+    let r ← value kind
+    pure (mkEnv nm (some r), .resolve k (.value r.ret))
+
+def finish {α : Type} (p : P α) (ts : List String) : Option α :=
+  match p ts with
+  | some (a, []) => some a
+  | _ => none
+
+def stepLine (s : St) (line : String) : St × String :=
+  match Driver.words line with
+  | ["reset"] => ({}, "ok")
+  | "export" :: ts =>
+    match finish parseExport ts with
+    | some (path, o) => ({ s with ex := dictSet s.ex path o }, "ok")
+    | none => (s, "parse-error")
+  | "call" :: ts =>
+    match finish parseCall ts with
+    | some (env, op) =>
+      let r := step env s.ex s.st op
+      ({ s with st := r.1 }, showEvents r.2)
+    | none => (s, "parse-error")
+  | "resolve" :: ts =>
+    match finish parseResolve ts with
+    | some (env, op) =>
+      let r := step env s.ex s.st op
+      ({ s with st := r.1 }, showEvents r.2)
+    | none => (s, "parse-error")
+  | _ => (s, "parse-error")
+
+end Driver.C10
+
+def main : IO Unit := Driver.run Driver.C10.stepLine {}
